@@ -1,7 +1,7 @@
 (* Ptg — formula token streams (rgce) of xls (BIFF8) and xlsb, and their A1 text.
    Definitions only: the model M of the two Rust decoders, the spec S (expression AST and its
    rendering), the encoders E (AST -> rgce bytes, written from MS-XLS 2.5.198 / MS-XLSB 2.5.97)
-   and the well-formedness / known-class predicates.  Proofs: Ptg_proofs.v.
+   and the well-formedness predicate (no known class is left).  Proofs: Ptg_proofs.v.
 
    Modelled Rust functions (current /repo tree):
      src/xls.rs        parse_formula, read_unicode_string_no_cch (as used by PtgStr)
@@ -278,24 +278,35 @@ Definition sheet_name_xls (ixti : N) : list N :=
   | None => lit "#REF"
   end.
 
-(*  PtgStr (xls): cch = rgce[0]; read_unicode_string_no_cch(enc, &rgce[1..], &cch, &mut formula);
-    rgce = &rgce[2 + cch..]
-    read_unicode_string_no_cch: decode_to(&buf[1..=cch], cch, s, Some(buf[0] & 1 != 0))
-    decode_to, code page 1200:
-      Some(false): l = cch bytes, widened with zero high bytes, UTF_16LE.decode
-      Some(true) : l = min(stream.len() / 2, cch) = cch / 2 characters (2*l bytes)   [F21] *)
+(*  PtgStr (xls), after commits a3d91ee / 6ef7f34:
+      let cch = rgce[0] as usize;  let mut text = String::new();
+      let used = read_unicode_string_no_cch(encoding, &rgce[1..], &cch, &mut text);
+      formula.push_str(&text.replace(QUOTE, QUOTE QUOTE));  rgce = &rgce[1 + used..];
+    read_unicode_string_no_cch(buf = &rgce[1..]):
+      high_byte = buf.first().map_or(false, |b| b & 1 != 0);  nbytes = if high_byte {2*len} else {len};
+      end = buf.len().min(1 + nbytes);  if end > 1 { decode_to(&buf[1..end], len, s, Some(high_byte)) }
+      return 1 + nbytes
+    decode_to, code page 1200: Some(false): l = min(stream.len(), len) bytes widened with zero high
+    bytes; Some(true): l = min(stream.len() / 2, len) characters (2*l bytes); then
+    UTF_16LE.decode_without_bom_handling.  A short buffer is clamped (no panic inside the helper);
+    the final rgce = &rgce[1 + used..] still panics when the token is truncated. *)
+Definition replace_quote (s : list N) : list N :=        (* text.replace(QUOTE, QUOTE QUOTE) *)
+  flat_map (fun c => if c =? ch_quote then [ch_quote; ch_quote] else [c]) s.
+
 Definition xls_ptgstr (rgce : list N) (s : pstate) : outcome (list N * pstate) :=
   let st' := length (snd s) :: fst s in
   do cch <- byte_at rgce 0;
   let n := N.to_nat cch in
-  do rest <- drop (2 + n) rgce;                   (* &buf[1..=cch] needs cch + 2 bytes of rgce *)
-  do flags <- byte_at rgce 1;
-  do stream <- (do r2 <- drop 2 rgce; take n r2);
+  let buf := skipn 1 rgce in
+  let high := match buf with b :: _ => N.testbit b 0 | [] => false end in
+  let nbytes := (if high then 2 * n else n)%nat in
+  let stream := firstn nbytes (skipn 1 buf) in            (* &buf[1..min(buf.len(), 1 + nbytes)] *)
   let txt :=
-    if N.testbit flags 0
-    then decode_utf16le (firstn (2 * (n / 2)) stream)
-    else decode_utf16le (widen stream) in
-  Ok (rest, (st', snd s ++ [ch_quote] ++ txt ++ [ch_quote])).
+    if high
+    then decode_utf16le (firstn (2 * Nat.min (length stream / 2) n) stream)
+    else decode_utf16le (widen (firstn (Nat.min (length stream) n) stream)) in
+  do rest <- drop (2 + nbytes) rgce;                       (* &rgce[1 + used..], used = 1 + nbytes *)
+  Ok (rest, (st', snd s ++ [ch_quote] ++ replace_quote txt ++ [ch_quote])).
 
 Fixpoint insert_n (k : nat) (e : nat) (ch : N) (b : list N) : outcome (list N) :=
   match k with O => Ok b | S k' => do b' <- insert_at e ch b; insert_n k' e ch b' end.
@@ -446,7 +457,9 @@ Variable benv : xlsb_env.
 Definition sheet_name_xlsb (ixti : N) : outcome (list N) :=
   of_option (nthN (be_sheets benv) ixti).
 
-(*  let cch = read_u16(&rgce[0..2]); UTF_16LE.decode(&rgce[2..2 + 2 * cch]); rgce = &rgce[2 + 2*cch..] *)
+(*  let cch = read_u16(&rgce[0..2]);
+    UTF_16LE.decode_without_bom_handling(&rgce[2..2 + 2 * cch]).0.replace(QUOTE, QUOTE QUOTE);
+    rgce = &rgce[2 + 2*cch..] *)
 Definition xlsb_ptgstr (rgce : list N) (s : pstate) : outcome (list N * pstate) :=
   do cch <- u16_at rgce 0;
   let n := (2 * N.to_nat cch)%nat in
@@ -454,7 +467,7 @@ Definition xlsb_ptgstr (rgce : list N) (s : pstate) : outcome (list N * pstate) 
   do stream <- take n r2;
   do rest <- drop n r2;
   Ok (rest, (length (snd s) :: fst s,
-             snd s ++ [ch_quote] ++ decode_utf16le stream ++ [ch_quote])).
+             snd s ++ [ch_quote] ++ replace_quote (decode_utf16le stream) ++ [ch_quote])).
 
 Definition xlsb_attr (rgce : list N) (s : pstate) : outcome (list N * pstate) :=
   do etpg <- byte_at rgce 0;
@@ -619,7 +632,7 @@ Inductive expr :=
 | EName (k : cls) (idx : N)                    (* 1-based index of the defined name *)
 | EInt (n : N)
 | ENum (bits : N)
-| EStr (wide : bool) (s : list N)              (* [wide]: stored as 16-bit characters (xls only) *)
+| EStr (wide : bool) (s : list N)              (* scalar values; [wide]: stored as 16-bit units (xls choice) *)
 | EBool (b : bool)
 | EErr (code : N)
 | EMissArg
@@ -750,13 +763,19 @@ Fixpoint encode (e : expr) : list N :=
   end.
 End Encode.
 
-(* XLUnicodeStringNoCch after a 1-byte cch (MS-XLS 2.5.198.89 PtgStr = ShortXLUnicodeString) *)
+(* UTF-16 code units of a string of Unicode scalar values (surrogate pairs above the BMP) *)
+Definition utf16_units (s : list N) : list N :=
+  flat_map (fun c => if c <? 65536 then [c]
+                     else [55296 + (c - 65536) / 1024; 56320 + (c - 65536) mod 1024]) s.
+
+(* XLUnicodeStringNoCch after a 1-byte cch (MS-XLS 2.5.198.89 PtgStr = ShortXLUnicodeString):
+   cch counts characters = UTF-16 code units when fHighByte = 1 *)
 Definition enc_str_xls (wide : bool) (s : list N) : list N :=
-  [N.of_nat (length s); if wide then 1 else 0] ++
-  (if wide then flat_map (le 2) s else s).
-(* MS-XLSB PtgStr: cch (2 bytes) + UTF-16LE characters *)
+  if wide then [N.of_nat (length (utf16_units s)); 1] ++ flat_map (le 2) (utf16_units s)
+  else [N.of_nat (length s); 0] ++ s.
+(* MS-XLSB PtgStr: cch (2 bytes) + UTF-16LE code units *)
 Definition enc_str_xlsb (_ : bool) (s : list N) : list N :=
-  le 2 (N.of_nat (length s)) ++ flat_map (le 2) s.
+  le 2 (N.of_nat (length (utf16_units s))) ++ flat_map (le 2) (utf16_units s).
 
 Definition encode_xls : expr -> list N := encode 2 enc_str_xls.
 Definition encode_xlsb : expr -> list N := encode 4 enc_str_xlsb.
@@ -765,7 +784,8 @@ Definition frame_xls (rgce : list N) : list N := le 2 (N.of_nat (length rgce)) +
 
 (* ---------- well-formedness (the domain of the theorems) ---------- *)
 Definition wf_cref (rowlim : N) (a : cref) : bool := (cr_row a <? rowlim) && (cr_col a <? 16384).
-Definition bmp_scalar (c : N) : bool := (c <? 65536) && negb ((55296 <=? c) && (c <=? 57343)).
+(* Unicode scalar value: below 0x110000 and not a surrogate *)
+Definition scalar (c : N) : bool := (c <? 1114112) && negb ((55296 <=? c) && (c <=? 57343)).
 Definition skip_etpg (e : N) : bool :=
   (e =? 0x01) || (e =? 0x02) || (e =? 0x08) || (e =? 0x20) || (e =? 0x21).
 
@@ -804,44 +824,18 @@ Fixpoint wf (e : expr) : bool :=
 End Wf.
 
 Definition wf_str_xls (wide : bool) (s : list N) : bool :=
-  (N.of_nat (length s) <? 256) &&
-  (if wide then forallb bmp_scalar s else forallb (fun c => c <? 256) s).
+  if wide then (N.of_nat (length (utf16_units s)) <? 256) && forallb scalar s
+  else (N.of_nat (length s) <? 256) && forallb (fun c => c <? 256) s.
 Definition wf_str_xlsb (_ : bool) (s : list N) : bool :=
-  (N.of_nat (length s) <? 65536) && forallb bmp_scalar s.
+  (N.of_nat (length (utf16_units s)) <? 65536) && forallb scalar s.
 
 Definition wf_xls (env : xls_env) : expr -> bool :=
   wf 65536 (fun _ => true) (length (xe_names env)) wf_str_xls.
 Definition wf_xlsb (env : xlsb_env) : expr -> bool :=
   wf 4294967296 (fun ix => ix <? N.of_nat (length (be_sheets env))) (length (be_names env)) wf_str_xlsb.
 
-(* ---------- known classes: inputs on which the current code departs from the property ---------- *)
-Definition K_STR_WIDE : N := 21.     (* F21: xls PtgStr stored as 16-bit characters *)
-Definition K_STR_QUOTE : N := 34.    (* a double quote inside a string literal is not doubled *)
-
-Definition first_some (a b : option N) : option N := match a with Some _ => a | None => b end.
-
-Section Known.
-Variable known_str : bool -> list N -> option N.
-Fixpoint known (e : expr) : option N :=
-  match e with
-  | EStr w s => known_str w s
-  | EUn _ a | EParen a | ESum a | EAttrSkip _ _ a => known a
-  | EBin _ a b => first_some (known a) (known b)
-  | EFunc _ _ args | EFuncVar _ _ args =>
-      fold_right (fun a acc => first_some (known a) acc) None args
-  | _ => None
-  end.
-End Known.
-
-Definition has_quote (s : list N) : bool := existsb (fun c => c =? ch_quote) s.
-Definition known_str_xls (wide : bool) (s : list N) : option N :=
-  if wide && negb (match s with [] => true | _ => false end) then Some K_STR_WIDE
-  else if has_quote s then Some K_STR_QUOTE else None.
-Definition known_str_xlsb (_ : bool) (s : list N) : option N :=
-  if has_quote s then Some K_STR_QUOTE else None.
-
-Definition known_xls : expr -> option N := known known_str_xls.
-Definition known_xlsb : expr -> option N := known known_str_xlsb.
+(* Known classes: none left.  K_STR_WIDE (F21) was repaired by commit a3d91ee and K_STR_QUOTE by
+   6ef7f34; their witnesses are corpus cases of tools/props/c14.py that must satisfy the spec. *)
 
 (* number of tokens of the encoding = fuel the decoder loop consumes *)
 Fixpoint ntok (e : expr) : nat :=
